@@ -269,7 +269,14 @@ func (o *OvsdbServer) Monitor(client *rpc2.Client, args []json.RawMessage, reply
 		}
 	}
 	*reply = tableUpdates
-	o.monitors[client].monitors[value] = newMonitor(value, request, client)
+	monitor := newMonitor(value, request, client)
+	o.modelsMutex.RLock()
+	if dbModel, ok := o.models[db]; ok {
+		schema := dbModel.Schema
+		monitor.schema = &schema
+	}
+	o.modelsMutex.RUnlock()
+	o.monitors[client].monitors[value] = monitor
 	return nil
 }
 
